@@ -174,6 +174,7 @@ def run_property(pid, tier="quick", seed=0):
     known = load_known()
     kf = [f for f in known.get("findings", []) if f["property"] == pid]
     violations, undecided, crashes, known_hits = [], [], [], []
+    engine_errors = []
     n_ob = n_dis = 0
     backends = {}
     solver_time = 0.0
@@ -181,7 +182,10 @@ def run_property(pid, tier="quick", seed=0):
     fn_rows = []
     for rep in reports:
         if rep.get("crash"):
-            crashes.append(rep)
+            # the engine raised while executing this one body (a construct it does not handle gracefully): nothing is concluded
+            # about the function (undecided).  A failure of the checker as a whole shows up as zero obligations (exit 3).
+            engine_errors.append(rep)
+            undecided.append(dict(function=rep["key"], reason="engine error on this body: " + str(rep.get("error", "")).strip().splitlines()[-1][:200]))
             continue
         if rep.get("error"):
             undecided.append(dict(function=rep["key"], reason=rep["error"]))
@@ -355,7 +359,7 @@ def run_property(pid, tier="quick", seed=0):
         print("  undecided:", u, file=sys.stderr)
     for c in crashes:
         print("  CRASH:", c.get("key"), c.get("error"), file=sys.stderr)
-    if crashes:
+    if crashes or (engine_errors and len(engine_errors) == len(reports)):
         return 3
     if new_violations:
         return 1
